@@ -509,6 +509,66 @@ class Model:
         return d
 
 
+class EvalModel:
+    """a lexer callback whose shape is not the delete/strip-prefix one: its syntax tree is evaluated (c11_util.Interp, with
+    `lex.slice()` = the lexeme) on sample lexemes instead of being pushed through the automata"""
+
+    def __init__(self, h, crate):
+        self.h = h
+        self.crate = crate
+        self.lits = set()
+        for n in walk(h["body"]):
+            if n.get("k") == "lit":
+                v = n.get("v") or {}
+                for key in ("str", "char"):
+                    if isinstance(v.get(key), str):
+                        self.lits |= set(v[key])
+
+    def apply(self, w):
+        from c11_util import Interp, NotEvaluable
+        try:
+            out = Interp(self.crate).call_fn(self.h, [("lexer", w)])
+        except NotEvaluable as e:
+            raise AnchorMissing(f"callback {self.h['key']} can be neither modelled nor evaluated (on `{w}`): {e}")
+        if not isinstance(out, str):
+            raise AnchorMissing(f"callback {self.h['key']} evaluated on `{w}` gives {out!r}, not text")
+        return out
+
+    def describe(self):
+        return "evaluated on sample lexemes"
+
+
+def sample_image_not_included(src, model, target, max_len=6, max_words=4000):
+    """a lexeme w of L(src), built from representative characters and at most max_len long, with model.apply(w) not in L(target)"""
+    S, T = src.dfa, target.dfa
+    live = S.live()
+    cols = {}
+    for a in range(NSYM):
+        sig = (tuple(row[a] for row in S.trans), tuple(row[a] for row in T.trans))
+        cols.setdefault(sig, a)
+    reps = set(cols.values())
+    for ch in model.lits:
+        for c2 in {ch, ch.lower(), ch.upper()}:
+            if len(c2) == 1:
+                reps.add(sym_of(c2))
+    reps = sorted(reps)
+    dq = deque([(S.start, "")])
+    n = 0
+    while dq and n < max_words:
+        q, w = dq.popleft()
+        if q in S.accept:
+            n += 1
+            if not target.accepts(model.apply(w)):
+                return w
+        if len(w) >= max_len:
+            continue
+        for a in reps:
+            q2 = S.trans[q][a]
+            if q2 >= 0 and q2 in live:
+                dq.append((q2, w + char_of(a)))
+    return None
+
+
 def _is_slice_of_param(e, params):
     """`<param>.slice()` (logos lexeme)"""
     e = unblock(e)
